@@ -89,6 +89,20 @@ PPutW(ev) ==
   /\ Chk(ev.same = 1, "positional write at a large offset changed bytes far away from the offset")
   /\ sw' = nb /\ UNCHANGED <<host, bw, bits, rd, brd>>
 
+(* get_line on a buffer too large to log (one fill byte, newlines at ev.nl, possibly a CR at ev.cr right before the first
+   newline): the line runs from the cursor to the next newline (or the end), a final CR is not part of the result, the
+   cursor moves behind the newline (never behind the end) *)
+LineBig(ev) ==
+  LET ahead == {p \in {ev.nl[i] : i \in DOMAIN ev.nl} : p >= ev.cur}
+      stop == IF ahead = {} THEN ev.n ELSE CHOOSE p \in ahead : \A q \in ahead : p <= q
+      raw == stop - ev.cur
+      exp == IF raw > 0 /\ ev.cr = stop - 1 THEN raw - 1 ELSE raw
+      newcur == IF ev.adv = 1 THEN (IF stop + 1 > ev.n THEN ev.n ELSE stop + 1) ELSE ev.cur IN
+  /\ Chk(ev.out = "ok", "get_line inside the data threw")
+  /\ Chk(ev.retlen = exp /\ ev.allfill = 1, "get_line: a long line came back truncated, padded or altered")
+  /\ Chk(ev.where = newcur, "get_line: cursor after a long line")
+  /\ UNCHANGED <<host, sw, bw, bits, rd, brd>>
+
 RdKeep(ev, newcur) ==
   /\ Chk(ev.where = newcur, "cursor after the call")
   /\ rd' = [rd EXCEPT !.cur = ev.where] /\ UNCHANGED <<host, sw, bw, bits, brd>>
@@ -225,6 +239,7 @@ Step(ev) ==
     [] ev.e = "go" -> Go(ev)
     [] ev.e \in {"cstr", "pcstr"} -> CStr(ev)
     [] ev.e = "line" -> Line(ev)
+    [] ev.e = "linebig" -> LineBig(ev)
     [] ev.e = "skipif" -> SkipIf(ev)
     [] ev.e = "peek" -> Peek(ev)
     [] ev.e = "eof" -> Eof(ev)
